@@ -75,7 +75,7 @@ NoInj == [call |-> "ok", fn |-> "ok", ret |-> "ok", ser |-> "ok", at |-> "app", 
 \* a single failure per call; built constructively (a filter over the full product is slow)
 Bad == Outcome \ {"ok", "redirect"}
 InjSet ==
-     {[NoInj EXCEPT !.res = r] : r \in {"plain", "gen"}}
+     {[NoInj EXCEPT !.res = r] : r \in {"plain", "gen", "none"}}      \* none: the method declares no return value
   \cup {[NoInj EXCEPT !.call = o, !.at = a] : o \in Bad, a \in Where}
   \cup {[NoInj EXCEPT !.fn = o, !.res = r] : o \in Bad, r \in {"plain", "gen"}}
   \cup {[NoInj EXCEPT !.ret = o, !.at = a] : o \in Bad, a \in Where}
@@ -84,7 +84,7 @@ InjSet ==
   \* a raising method_context_closed / wsgi_close listener, on a success and on a fault
   \cup {[NoInj EXCEPT !.fin = f, !.fn = o] : f \in {"raise_closed", "raise_wsgiclose"}, o \in {"ok", "fault_client"}}
 
-EventInj == {i \in InjSet : i.res = "plain"}
+EventInj == {i \in InjSet : i.res \in {"plain", "none"}}
 EventScenarios ==
   { s \in [cfg : [tr : Transports, family : Families, chunked : {TRUE},
                   maxlen : {8}, block : {4}],
@@ -115,7 +115,8 @@ WsgiRpcScenarios == IF ScenSet = "wsgitiny" THEN WsgiRpcOf({2}, {1}, 1..2, {1, 3
 \* a ?wsdl fetch is a GET: no body, no injection; "wsdlerr": building the document fails
 WsgiWsdlScenarios ==
   [cfg : [tr : {"wsgi"}, family : {"soap11"}, chunked : BOOLEAN, maxlen : {2, 4}, block : {1}],
-   req : [kind : {"wsdl", "wsdlerr", "wsdlrw"}, class : {"valid"}, len : {1}, declared : {Absent}],   \* wsdlrw: a `wsdl` listener rewrites the document
+   \* wsdlrw: a `wsdl` listener rewrites the document; wsdl2: the document was built by an EARLIER request of this transport
+   req : [kind : {"wsdl", "wsdlerr", "wsdlrw", "wsdl2"}, class : {"valid"}, len : {1}, declared : {Absent}],
    inj : {NoInj}, abort : {NoAbort, 0, 1}]
 \* HttpRpc as the OUT protocol hands the value of the function through unchanged: a plain number as its text, a generator
 \* of byte strings (res = "gen") as the lazily produced body
@@ -249,7 +250,7 @@ GenFirst ==
   /\ UNCHANGED <<scen, inErr, bound, sr, status, clen, handed, chunks, closed, wclosed, nread>>
 
 CallFn ==
-  /\ pc = "fn" /\ inj.res = "plain" /\ fnRuns' = fnRuns + 1 /\ Emit("fn", "call")
+  /\ pc = "fn" /\ inj.res # "gen" /\ fnRuns' = fnRuns + 1 /\ Emit("fn", "call")
   /\ IF inj.fn = "ok" THEN pc' = "retobj" /\ fnOk' = TRUE /\ UNCHANGED outErr
      ELSE IF inj.fn = "redirect" THEN pc' = "redirect" /\ UNCHANGED <<fnOk, outErr>>
                       ELSE pc' = "excobj" /\ outErr' = FaultOf(inj.fn) /\ UNCHANGED fnOk
